@@ -107,7 +107,8 @@ def recv_pairs(run, pairs, tag):
 def main(run):
     proof_ok = run.prove(PROP_FILE, CORR)
     shoot = run.build_shoot()
-    run.replay_findings({})
+    run.replay_findings({k: (lambda f: mh.witness_outcome(run, shoot, f))
+                         for k in ("K_map_ctor_func_nil_receiver", "K_map_ctor_arg_unguarded")})
     npairs = 300 if run.thorough() else 40
     budget = 64 if run.thorough() else 24
     fixed = mapgen.corpus()
